@@ -45,6 +45,18 @@ class McResult:
         self.no_transition = "did not do any transition before terminating" in err
         self.ended = "exploration ended" in err or self.no_transition
         self.replays = re.findall(r"model-check/replay:'([^']*)'", err)
+        # (kind, path) of every reported counter-example, in order
+        self.counter_examples = []
+        kind = None
+        for l in err.splitlines():
+            if "DEADLOCK DETECTED" in l:
+                kind = "deadlock"
+            elif "PROPERTY NOT VALID" in l or "PROPERTY VIOLATION" in l.upper() or "assertion" in l.lower() and "fail" in l.lower():
+                kind = "assertion"
+            m2 = re.search(r"model-check/replay:'([^']*)'", l)
+            if m2:
+                self.counter_examples.append((kind, m2.group(1)))
+                kind = None
         self.crashed = (not self.ended) or r.rc < 0 or r.cpu_exceeded
 
     def tail(self, n=1200):
@@ -55,3 +67,29 @@ class McResult:
 def run(scenario, reduction, extra=(), cpu=120, wall=900):
     cfg = ["model-check/reduction:" + reduction] + BASE_CFG + list(extra)
     return McResult(scenario, s4u.run_mc(scenario, cfg, cpu=cpu, wall=wall))
+
+
+def replay(scenario, path, cpu=20, wall=200):
+    """Run the application out of the checker along a recorded path.  Returns (RunResult, verdict, blocked actor names)."""
+    import json as _json
+    import os
+    from . import build, core
+    f = core.write_tmp(_json.dumps(scenario))
+    try:
+        r = core.run([build.drv("s4u_interp"), "--mc", f, "--cfg=model-check/replay:" + path, "--log=no_loc"], cpu=cpu, wall=wall,
+                     env=build.runtime_env())
+    finally:
+        os.unlink(f)
+    txt = r.err + r.out
+    if "MC assertion failed" in txt:
+        verdict = "assertion"
+    elif "DEADLOCK detected" in txt:
+        verdict = "deadlock"
+    elif "no actor remains to be executed" in txt:
+        verdict = "terminated"
+    elif "could run further" in txt:
+        verdict = "incomplete"
+    else:
+        verdict = "other"
+    blocked = sorted(set(re.findall(r" - pid \d+ \(([^@]+)@", txt)))
+    return r, verdict, blocked
